@@ -12,7 +12,8 @@ let err_s = function None -> "nil" | Some Deadline -> "deadline" | Some Canceled
 let parse_ctx c =
   if c = "none" then [] else
   let t = nat_of_int (int_of_string (String.sub c 1 (String.length c - 1))) in
-  [Cancel ((if c.[0] = 'd' then Deadline else Canceled), t)]
+  (* D<t> / C<t>: the same context kinds created with a custom cause; ctx.Err() is unchanged *)
+  [Cancel ((if c.[0] = 'd' || c.[0] = 'D' then Deadline else Canceled), t)]
 let parse_ev e = match String.split_on_char '@' e with
   | [c; t] -> (int_of_string c, int_of_string t)
   | _ -> failwith "bad event"
